@@ -513,13 +513,22 @@ ALL = _All()
 
 def cmp_key_positional(c):
     """key of a Cmp with positional parameter names: 'lhs|rhs|kind|boundary'"""
+    return cmp_key_oriented(c)[0]
+
+
+def cmp_key_oriented(c):
+    """(key, swapped): the key orders its two operands by their rendering; `swapped` says the operands of the comparison
+    were exchanged for the key (and the boundary mirrored), so that an outcome 'below' of the comparison as written is
+    'at-or-above' of the key as printed"""
     la = F.rd(positional(c.lex)) if c.lex is not None else ""
     lb = F.rd(positional(c.rex)) if c.rex is not None else ""
     bnd = c.boundary
+    swapped = bool(getattr(c, "flipped", False))
     if lb and lb < la:
         la, lb = lb, la
         bnd = (-bnd + 1) if c.kind == "b" else -bnd
-    return "%s|%s|%s|%d" % (la, lb, c.kind, bnd)
+        swapped = (not swapped) if c.kind == "b" else swapped
+    return "%s|%s|%s|%d" % (la, lb, c.kind, bnd), swapped
 
 
 # ------------------------------------------------------------------ T3-b / T3-c standards tables
@@ -1113,12 +1122,13 @@ def verdict_paths(body, O, guarded_bb, opposite_bb, limit=256):
 
 # ---------------------------------------------------------------------------------------------------------------------
 # reaching conditions as boolean functions over comparison facts
-def reach_dnf(body, O, target_bb, limit=4096):
+def reach_dnf(body, O, target_bb, limit=4096, param_atoms=False):
     """The comparison outcomes under which block `target_bb` is reached from the entry: a set of paths, each a frozenset of
     (comparison key, 'below' | 'at-or-above').  Decisions that were stored in a bool first (`let unsigned = MIN >= 0; ..
     match (unsigned, fits)`; `let any = matches!(..)`) are resolved along each path: a switch on such a local counts as the
     comparison that defined it on that path, and a constant definition selects the one feasible edge.  Other switches
-    (discriminants, call results) do not contribute literals.  Returns None when there are more than `limit` paths."""
+    (discriminants, call results) do not contribute literals.  With `param_atoms` a switch on a bool parameter of the
+    function contributes the literal ('param:$<n>', 'true' | 'false').  Returns None when there are more than `limit` paths."""
     cmp_at = {}
     for c in F.comparisons(body, O, include_compiler_checks=False):
         if c.dest is not None:
@@ -1147,6 +1157,8 @@ def reach_dnf(body, O, target_bb, limit=4096):
                 if best is None or k > best[0]:
                     best = (k, d)
         if best is None:
+            if param_atoms and 1 <= l <= body.arg_count and not body.defs.get(l):
+                return ("param", l)
             return None
         d = best[1]
         if d[2] != "assign":
@@ -1167,6 +1179,8 @@ def reach_dnf(body, O, target_bb, limit=4096):
                 return None
             if r[0] == "const":
                 return ("const", not r[1])
+            if r[0] == "param":
+                return ("param", r[1], not (r[2] if len(r) > 2 else False))
             return ("cmp", r[1], not r[2])
         return None
 
@@ -1218,10 +1232,19 @@ def reach_dnf(body, O, target_bb, limit=4096):
                     c = r[1]
                     v = (not val) if r[2] else val
                     below = c.nop in ("Lt", "Le")
-                    truth = "below" if (v == below) else "at-or-above"
-                    k = cmp_key_positional(c)
+                    k, swapped = cmp_key_oriented(c)
+                    truth = "below" if ((v == below) != swapped) else "at-or-above"
                     if lits.get(k, truth) != truth:
                         continue        # contradicts an earlier outcome of the same comparison on this path
+                    l2 = dict(lits)
+                    l2[k] = truth
+                    go(tg, path, l2)
+                elif r is not None and r[0] == "param":
+                    v = (not val) if (len(r) > 2 and r[2]) else val
+                    k = "param:$%d" % r[1]
+                    truth = "true" if v else "false"
+                    if lits.get(k, truth) != truth:
+                        continue
                     l2 = dict(lits)
                     l2[k] = truth
                     go(tg, path, l2)
@@ -1273,3 +1296,112 @@ def dnf_equal(a, b):
         if holds(a, asg) != holds(b, asg):
             return False, asg
     return True, None
+
+
+def returned_on_paths(body, avoid=(), limit=2048):
+    """What the function returns on every simple path from the entry to a return that stays clear of the blocks `avoid`: a list
+    of (kind, payload, path) with kind 'const' (payload: the constant's value text), 'call' (payload: the CallSite whose result
+    is returned), 'other' (payload: the defining statement or None).  Plain copies / moves are followed along the path.
+    Returns None when there are more than `limit` paths."""
+    avoid = set(avoid)
+    rets = set(body.return_blocks())
+    out = []
+    count = [0]
+    calls_at = {cs.bb: cs for cs in body.calls()}
+
+    def value(l, path):
+        pos = {b: i for i, b in enumerate(path)}
+        for _ in range(8):
+            best = None
+            for d in body.defs.get(l, ()):
+                if d[0] in pos and d[2] in ("assign", "call"):
+                    k = (pos[d[0]], d[1] if d[1] >= 0 else 10 ** 6)
+                    if best is None or k > best[0]:
+                        best = (k, d)
+            if best is None:
+                return ("other", None)
+            d = best[1]
+            if d[2] == "call":
+                return ("call", d[3])
+            rv = d[3]
+            if rv["k"] == "use":
+                op = rv["op"]
+                if op.get("k") == "const":
+                    return ("const", op.get("val"))
+                if op.get("k") in ("copy", "move") and not op["pl"]["p"]:
+                    l = op["pl"]["l"]
+                    path = path[:pos[d[0]] + 1]
+                    pos = {b: i for i, b in enumerate(path)}
+                    continue
+            return ("other", rv)
+        return ("other", None)
+
+    def go(n, path):
+        if count[0] > limit or n in avoid:
+            return
+        path = path + [n]
+        if n in rets:
+            count[0] += 1
+            k, p = value(0, path)
+            out.append((k, p, path))
+            return
+        for tg in sorted(set(body.succ[n])):
+            if tg not in path:
+                go(tg, path)
+
+    go(0, [])
+    return None if count[0] > limit else out
+
+
+def own_closure_calls(P, closure):
+    """call sites at which the function that defines `closure` (or one of its other closures) invokes it directly
+    (`let lit = |x| ..; lit(a)`): [(calling body, CallSite, [argument origins in the calling body's terms])]"""
+    root = P.bodies.get("%s::%s" % (closure.crate, closure.root)) if closure.root else None
+    if root is None:
+        return []
+    out = []
+    cpath = closure.path
+    for body in [root] + P.closures_of(root):
+        O = None
+        for cs in body.calls():
+            if cs.name not in ("call", "call_once", "call_mut") or not cs.fn:
+                continue
+            res = cs.fn.get("resolved") or ""
+            if not (res == cpath or res.endswith("::" + cpath) or cpath.endswith("::" + res)):
+                continue
+            O = O or X.Origins(body, P)
+            args = O.call_args(cs)
+            tup = X.strip(args[1]) if len(args) > 1 else None
+            while tup is not None and tup[0] in ("ref", "deref", "mut"):
+                tup = X.strip(tup[1])
+            elems = [e for _, e in tup[4]] if tup is not None and tup[0] == "agg" else []
+            out.append((body, cs, elems))
+    return out
+
+
+def fold_map_payload(P, body, ex, depth=0):
+    """`(opt.map(|x| v) as Some).0` is `v`: the payload of a mapped Option / Result is what the closure returns, rewritten over
+    the values of the function that created the closure.  Applied bottom-up to a whole origin expression."""
+    if not isinstance(ex, tuple) or not ex or depth > 6:
+        return ex
+    ex = tuple(fold_map_payload(P, body, x, depth) if isinstance(x, tuple) and x and isinstance(x[0], str) else
+               (tuple(fold_map_payload(P, body, y, depth) if isinstance(y, tuple) and y and isinstance(y[0], str) else
+                      (tuple(fold_map_payload(P, body, z, depth) if isinstance(z, tuple) and z and isinstance(z[0], str) else z for z in y)
+                       if isinstance(y, tuple) else y) for y in x) if isinstance(x, tuple) else x)
+               for x in ex)
+    if ex[0] == "field" and ex[2] == "0" and ex[1][0] == "downcast" and ex[1][2] in ("Some", "Ok"):
+        inner = ex[1][1]
+        while inner[0] in ("ref", "deref", "mut"):
+            inner = inner[1]
+        if inner[0] == "call" and X.last_seg(inner[1] or "") == "map" and len(inner[3]) == 2:
+            c = inner[3][1]
+            while c[0] in ("ref", "deref", "mut"):
+                c = c[1]
+            if c[0] == "agg" and c[1] == "closure":
+                cb = P.bodies.get("%s::%s" % (body.crate, c[2]))
+                if cb is not None:
+                    Oc = X.Origins(cb, P)
+                    rets = [Oc.rvalue(d[3], d[0], d[1], 0) for d in cb.defs.get(0, ()) if d[2] == "assign"]
+                    if len(rets) == 1 and len([d for d in cb.defs.get(0, ())]) == 1:
+                        return fold_map_payload(P, cb, in_root_terms(P, cb, rets[0]), depth + 1)
+    return ex
